@@ -135,6 +135,9 @@ def run(facts, rep, tier):
     cls = facts.cls('tulz::LocaleInfo::Info')
     ptr_fields = [x['name'] for x in cls['fields'] if x['isptr']]
     has_init = {x['name'] for x in cls['fields'] if x.get('init')}
+    ri = Node(f.tu, infos[0]['init']) if infos[0].get('init') else None
+    if ri is not None and (ri.k == 'initlist' or (ri.k == 'construct' and ri.d.get('listinit'))):
+        has_init = {x['name'] for x in cls['fields']}          # `Info result {};` value-initialises every member
     required = [x for x in ('languageCode', 'country', 'countryCode') if x in ptr_fields]
     if len(required) != 3: rep.anchor_missing('Info fields', 'languageCode/country/countryCode not all present')
 
@@ -308,6 +311,10 @@ def run(facts, rep, tier):
                       'the fallback returns strings that are not table entries', key='LO.3|fallback-literals', fn=f.name)
             continue
         missing = [x for x in required if x not in asg]
+        if 'error' in ptr_fields and 'error' not in asg:
+            rep.violation('LO.2', f'return at line {r.line}: `error` has a determinate value (null unless the fallback was taken)', r.shortloc(),
+                          'the Info member `error` has no default member initialiser and is not assigned on the way to this return: callers test it to tell a resolved locale from the fallback and read an indeterminate pointer', key='LO.2|error-uninit', fn=f.name)
+        elif 'error' in ptr_fields: rep.ok('LO.2', f'return at line {r.line}: `error` has a determinate value', r.shortloc())
         witness = False
         if 'languageCode' in missing and paired:
             for atom, pol in known:
